@@ -87,9 +87,25 @@ func (f *Filter) Filter(query *linear.Seq, selfAlign, complement bool, morass *m
 
 	// Ticker tracks cycling of circular list of active tubes.
 	ticker := tubeWidth
+	// It is the number of query positions after which the next tube ends. The positions
+	// passed are taken from the callback rather than counted, since a k-mer holding a
+	// letter that is not in the alphabet gets no callback. tick retires the tubes that
+	// end within the first passed query positions.
+	tick := func(passed int) error {
+		for ; ticker <= passed; ticker += f.tubeOffset {
+			if err := f.tubeEnd(ticker - 1); err != nil {
+				return err
+			}
+		}
+		return nil
+	}
 
 	var err error
 	err = f.ki.ForEachKmerOf(query, 0, query.Len(), func(ki *kmerindex.Index, position, kmer int) {
+		if e := tick(position); e != nil {
+			panic(e) // Caught by fastkmerindex.ForEachKmerOf and returned
+		}
+
 		from := 0
 		if kmer > 0 {
 			from = ki.FingerAt(kmer - 1)
@@ -98,14 +114,13 @@ func (f *Filter) Filter(query *linear.Seq, selfAlign, complement bool, morass *m
 		for i := from; i < to; i++ {
 			f.commonKmer(ki.PosAt(i), position)
 		}
-
-		if ticker--; ticker == 0 {
-			if e := f.tubeEnd(position); e != nil {
-				panic(e) // Caught by fastkmerindex.ForEachKmerOf and returned
-			}
-			ticker = f.tubeOffset
-		}
 	})
+	if err != nil {
+		return err
+	}
+
+	// The last k-mer is at query.Len()-f.k, whether or not it had a callback.
+	err = tick(query.Len() - f.k + 1)
 	if err != nil {
 		return err
 	}
